@@ -446,6 +446,12 @@ def finish(mod, tier, seed, results, twin_res, not_reached, t0):
     if evaluations and len(inconcl) > 0.5 * evaluations:
         print('HARNESS-ERROR: more than half of the cases were inconclusive')
         return 2
+    unsupported = [r for r in inconcl if str(r.get('why', '')).startswith(('Unsupported', 'OutOfBounds'))]
+    if evaluations and len(unsupported) > 0.1 * evaluations:
+        # the code under test lowers to something the interpreter cannot encode for a substantial part of the family:
+        # "cannot decide" must not read as "held" (DESIGN 11.3)
+        print(f'HARNESS-ERROR: the interpreter cannot encode {len(unsupported)} of {evaluations} cases ({unsupported[0].get("why", "")[:120]})')
+        return 2
     if evaluations == 0:
         print('HARNESS-ERROR: nothing was explored')
         return 2
